@@ -140,7 +140,10 @@ class ExtendedTestResult(Python27TestResult):
         self._tags = TagContext(self._tags)
 
     def stopTest(self, test):
-        self._tags = self._tags.parent
+        # A test reported without startTest (e.g. a skip decided before the
+        # test was started) has no context of its own to leave.
+        if self._tags.parent is not None:
+            self._tags = self._tags.parent
         super().stopTest(test)
 
     @property
